@@ -32,8 +32,21 @@ class VecIter(object):
         self.vec, self.pos, self.by_value = vec, 0, by_value
 
 
+_IPD_MEMO = {}
+
+
 def ipdoms(f):
-    """immediate post-dominators of the reachable blocks (virtual exit = every block without successors)"""
+    """immediate post-dominators of the reachable blocks (virtual exit = every block without successors); cached per function object"""
+    k = id(f)
+    hit = _IPD_MEMO.get(k)
+    if hit is not None and hit[0] is f:
+        return hit[1]
+    r = _ipdoms(f)
+    _IPD_MEMO[k] = (f, r)
+    return r
+
+
+def _ipdoms(f):
     blocks = sorted(f.reachable())
     succ = {b: list(f.succ(b)) for b in blocks}
     EXIT = -1
@@ -590,6 +603,11 @@ class TabInterp(CharInterp):
     def operand(self, st, o):
         if o["k"] == "const" and "val" not in o and (o.get("s") in self.prog.constbodies or o.get("s") in self.prog.promoted):
             v = self.const_value(st, o["s"])
+            if (o.get("ty") or {}).get("k") == "array" and isinstance(v, Ref) and v.loc[0] == "local":
+                # an array constant used by value (`TABLE[i]` copies the constant into a local): the elements themselves
+                g = self._get(st, v.loc)
+                if isinstance(g, GVec):
+                    return [bitsem._copy_val(x, {}) if isinstance(x, (list, Adt, Tup)) else x for _, x in g.items]
             return v
         return GInterp.operand(self, st, o)
 
@@ -624,6 +642,29 @@ class TabInterp(CharInterp):
         if isinstance(v, Ref):
             return v
         return CharInterp.cast(self, v, src_ty, dst_ty)
+
+    def rvalue(self, st, rv, dest_place):
+        if rv["k"] == "repeat":
+            # [x; N]: a local array as a list of N (independent) copies
+            x = self.operand(st, rv["op"])
+            n = rv.get("count")
+            if not isinstance(n, int) or n > 65536:
+                raise Undecided("array repeat with a non-literal or very large count")
+            return [bitsem._copy_val(x, {}) if isinstance(x, (list, Adt, Tup)) else x for _ in range(n)]
+        return CharInterp.rvalue(self, st, rv, dest_place)
+
+    def index_loc(self, st, loc, iv):
+        # an element of a local array (a table built by a constant block, a scratch array): concrete index, checked against the length
+        if loc[0] == "local":
+            arr = self._get(st, loc)
+            if isinstance(iv, bitsem.BV):
+                iv = iv.concrete()
+            if isinstance(arr, list) and isinstance(iv, int) and not isinstance(iv, bool):
+                if not (0 <= iv < len(arr)):
+                    raise Panic("index %d out of bounds of an array of %d" % (iv, len(arr)))
+                return ("local", loc[1], tuple(loc[2]) + (iv,)) + tuple(loc[3:])
+            raise Undecided("index into a local array by a non-concrete value (%s into %s)" % (type(iv).__name__, type(arr).__name__))
+        return CharInterp.index_loc(self, st, loc, iv)
 
     def compare(self, op, x, y):
         if isinstance(x, int) and isinstance(y, int):
